@@ -60,4 +60,10 @@ impl DFA {
     { unimplemented!() }
 }
 
+/// `==` on Ustr (an interned pointer) is identity of the interned string
+#[verifier::external_body]
+pub proof fn axiom_ustr_key_eq(a: Ustr, b: Ustr)
+    ensures key_eq(a, b) == (a == b)
+{ }
+
 } // verus!
